@@ -53,29 +53,77 @@ def lru_suite(ctx):
     return s
 
 
-def task_purity(args):
-    """apply each rule to src; after each call compare the cached tree with a fresh parse; call again and compare outputs"""
-    src, rules = args
-    from pyrefact import core
+class _Recorder:
+    """wraps a cached function of pyrefact inside the worker: every object the cache hands out is remembered together
+    with a dump taken the first time it is seen (= when it was created), so that a later change of the cached object
+    is visible"""
 
+    def __init__(self, fn, dump):
+        self.fn, self.dump, self.seen = fn, dump, {}
+
+    def __call__(self, *a, **k):
+        res = self.fn(*a, **k)
+        if id(res) not in self.seen:
+            try:
+                self.seen[id(res)] = (res, self.dump(res))
+            except Exception:  # noqa: BLE001
+                pass
+        return res
+
+    def __getattr__(self, name):  # cache_info, cache_clear, __wrapped__
+        return getattr(self.fn, name)
+
+    def changed(self):
+        out = []
+        for (obj, snap) in self.seen.values():
+            try:
+                if self.dump(obj) != snap:
+                    out.append(snap[:80])
+            except Exception:  # noqa: BLE001
+                out.append("undumpable")
+        return out
+
+
+def _dump_any(x):
+    if isinstance(x, ast.AST):
+        return ast.dump(x, include_attributes=True)
+    if isinstance(x, (list, tuple, set, frozenset)):
+        return repr([_dump_any(y) for y in x])
+    if hasattr(x, "_asdict"):
+        return repr({k: _dump_any(v) for k, v in x._asdict().items()})
+    return repr(x)
+
+
+def task_purity(args):
+    """apply each rule to src; after each call every object handed out by pyrefact's caches (parse trees, compiled
+    templates, traced origins, line tables) must still equal its dump at creation; a second call must return the same text"""
+    src, rules = args
+    from pyrefact import core, tracing
+
+    try:
+        ast.parse(src)
+    except SyntaxError:
+        return {"status": "ok", "bad": []}
+    recs = {}
+    for mod, name in ((core, "parse"), (core, "compile_template"), (core, "_get_line_start_charnos"), (tracing, "trace_origin")):
+        fn = getattr(mod, name)
+        if not isinstance(fn, _Recorder):
+            recs[name] = _Recorder(fn, _dump_any)
+            setattr(mod, name, recs[name])
+        else:
+            recs[name] = fn
     out = []
     for rule_name in rules:
         rule = oracles.resolve_rule(rule_name)
-        core.parse.cache_clear()
-        try:
-            ast.parse(src)
-        except SyntaxError:
-            return {"status": "ok", "bad": []}
+        for rec in recs.values():
+            rec.seen.clear()
+        recs["parse"].cache_clear()
         st1, o1 = oracles._guarded(lambda: rule(src), 30)
         if st1 != "ok":
             continue
-        try:
-            cached = ast.dump(core.parse(src), include_attributes=True)
-        except Exception:  # noqa: BLE001
-            continue
-        fresh = ast.dump(ast.parse(src), include_attributes=True)
-        if cached != fresh:
-            out.append((rule_name, "the cached tree of the input no longer equals a fresh parse after the call"))
+        bad = [(n, c) for n, rec in recs.items() for c in rec.changed()]
+        if bad:
+            out.append((rule_name, f"an object held by the {bad[0][0]} cache was changed by the call ({bad[0][1][:60]}...)"))
             continue
         st2, o2 = oracles._guarded(lambda: rule(src), 30)
         if st2 == "ok" and o1 != o2:
@@ -86,21 +134,21 @@ def task_purity(args):
 def purity_suite(ctx):
     s = Suite("purity", kind="oracle")
     rules = sweep.rule_names()
-    items = sweep.pick(sweep.generated_corpus(), ctx, 60) + sweep.pick(
-        [(oracles.sha(x), x, "repo-example") for x in oracles.repo_examples()], ctx, 250)
+    items = sweep.pick(sweep.generated_corpus(), ctx, 60) + sweep.targeted() + [(oracles.sha(x), x, "repo-example") for x in oracles.repo_examples()]
     results = oracles.pmap(task_purity, [(src, rules) for (_sha, src, _fam) in items])
     base = sweep.baseline("C05")
     for (sha, src, fam), res in zip(items, results):
         s.cases += 1
-        s.count(fam)
+        s.count(fam if fam in ("repo-example", "grammar") else "family")
         s.nt(sha)
         for (rule, why) in res.get("bad", []):
             if sweep.key(sha, {}, rule) in base:
                 continue
             s.disagreements.append({"sha": sha, "src": src, "rule": rule, "history": [f"{rule}(src)", f"{rule}(src)"],
                                     "what": f"{rule}: {why}"})
-    s.note = (f"every pipeline rule ({len(rules)}) on a corpus slice: ast.dump(core.parse(src), include_attributes=True) == dump of a fresh "
-              "ast.parse(src) after the call, and a second call returns the same text; non-trivial = every program")
+    s.note = (f"every public rule ({len(rules)}) on the targeted corpus, a slice of the generated one and ALL repository examples (the unit-test inputs of every rule): "
+              "every object handed out by the parse / compile_template / trace_origin / line-table caches during the call still equals its dump at creation "
+              "(recording wrappers inside the worker process; nothing in /repo is instrumented), and a second call returns the same text; non-trivial = every program")
     return s
 
 
